@@ -30,10 +30,15 @@ ASSUMPTIONS = [
     "handlers do not raise; conditions are of the form name{k==v}; handler kwargs/conditions of plain-event handlers are C01's part",
     "liveness (callback exactly once) assumes fair clearing and fresh queues: no handler passes the queue object it was "
     "given on into another queue event (Mode.start did; fixes/C02-mode-start-no-queue-forward.patch)",
-    "EventManager.stop() task cancellation and exceptions in coroutine handlers are not covered",
+    "EventManager.stop() task cancellation and exceptions other than CancelledError in coroutine handlers are not covered",
 ]
 
 MODE_HID = 900
+TRIGGERS = (1, 3, 4)          # event ids of the three start events of a mode (2 = mode_<m>_starting)
+
+
+def mode_hid(trigger):
+    return MODE_HID + (trigger - 1)
 
 
 def reg_fields(r):
@@ -128,18 +133,26 @@ def _patch():
         if run.aborted:
             return None
         queue = kwargs.get("queue")
-        run.log.append(["I", kwargs.get("_psn"), MODE_HID, run.num(queue)])
+        psn = kwargs.get("_psn")
+        trigger = run.posts.get(str(psn), [None, None, 1])[2]
+        hid = mode_hid(trigger)
+        q = run.num(queue)
+        run.log.append(["I", psn, hid, q])
         run.log.append(["A", canon_args(kwargs)])
-        was = self._starting or self._active
+        was = bool(self._starting or self._active)
+        mark = len(run.log)
         run.in_mode = self.name
         try:
             o_start(self, mode_priority, callback, **kwargs)
         finally:
             run.in_mode = None
-        if self._starting and not was:
+        started = bool(self._starting and not was)
+        waited = ["W", q] in run.log[mark:]
+        if started:
             run.mode_psn = run.alloc()
             run.qposts.append(run.mode_psn)
             run.log.append(["Q", run.mode_psn])
+        run.mode_reqs.append({"hid": hid, "psn": psn, "busy": was, "started": started, "waited": waited, "q": q})
         return None
 
     def started(self, **kwargs):
@@ -177,6 +190,7 @@ class Run:
         self.evname = {}
         self.posts = {}
         self.pre = []
+        self.mode_reqs = []
 
     def preallocate(self, n):
         from mpf.core.events import QueuedEvent
@@ -236,6 +250,10 @@ class Run:
                     own.clear()
             elif k == "CN":
                 self.release(a[1])
+            elif k == "XN":
+                n = len(self.outst)
+                if n and self.outst[a[1] % n][0] == "f":
+                    self.outst.pop(a[1] % n)[1].cancel()       # the coroutine's await raises CancelledError
             elif k == "PQ":
                 psn = self.alloc()
                 kw = {"_psn": psn}
@@ -271,7 +289,7 @@ class Run:
             self.execute(acts, queue)
         return handler
 
-    def make_async(self, hid, aw, mode_handler=False):
+    def make_async(self, hid, aw, mode_handler=False, raise_cancelled=False):
         async def coro(_q=None, **kwargs):
             if self.aborted:
                 return
@@ -279,6 +297,8 @@ class Run:
                 fut = self.loop.create_future()
                 self.outst.append(["f", fut, _q])
                 await fut
+            if raise_cancelled and not self.aborted:
+                raise asyncio.CancelledError()                 # the task ends CANCELLED instead of finished
         coro._c02_hid = hid
         coro._c02_mode = mode_handler
         return coro
@@ -294,7 +314,8 @@ class Run:
         if body[0] == "s":
             self.keys[hid] = self.em.add_handler(name, self.make_sync(hid, body[1], mode_handler), priority=prio, **kw)
         else:
-            self.keys[hid] = self.em.add_async_handler(name, self.make_async(hid, body[1], mode_handler), priority=prio, **kw)
+            self.keys[hid] = self.em.add_async_handler(
+                name, self.make_async(hid, body[1], mode_handler, len(body) > 2 and body[2]), priority=prio, **kw)
 
     def observe(self, tasks):
         if self.failed:
@@ -396,7 +417,7 @@ def gen_queue(rng, tier, i):
     for e, hid in plan:
         prio = rng.choice([1, 1, 2, 5, 5, 10])
         if kinds[e] == "q" and rng.random() < 0.3:
-            body = ["a", rng.random() < 0.6]
+            body = ["a", rng.random() < 0.6, rng.random() < 0.25]      # [await a future?, end with CancelledError?]
         else:
             body = ["s", gen_actions(rng, e, nev, hids, kinds[e] == "q", kinds)]
         hkw, hq, cond = [], None, None
@@ -422,7 +443,7 @@ def gen_queue(rng, tier, i):
     for _ in range(rng.randint(1, 7)):
         r = rng.random()
         if r < 0.6:
-            env.append([["CN", rng.randrange(5)] for _ in range(rng.choice([1, 1, 1, 2, 3]))])
+            env.append([["XN" if rng.random() < 0.2 else "CN", rng.randrange(5)] for _ in range(rng.choice([1, 1, 1, 2, 3]))])
         elif r < 0.8:
             env.append(posts(1) + ([["CN", rng.randrange(5)]] if rng.random() < 0.5 else []))
         elif r < 0.9 and hids:
@@ -495,6 +516,8 @@ def c_action(a):
         return "AClearOwn"
     if k == "CN":
         return "(AClearNth %s)" % nlit(a[1])
+    if k == "XN":
+        return "(ACancelNth %s)" % nlit(a[1])
     if k == "PQ":
         return "(APostQ %s %s %s)" % (zlit(a[1]), blit(a[2]), c_zz(a[3] if len(a) > 3 else []))
     if k == "PP":
@@ -754,7 +777,8 @@ def _boot_mode_rig():
     from rig import Rig
     modes = {}
     for name, uwq in MODES.items():
-        modes[name] = {"mode": {"start_events": ["go_" + name], "stop_events": ["stop_" + name], "priority": 100,
+        modes[name] = {"mode": {"start_events": ["go%d_%s" % (t, name) for t in TRIGGERS],
+                                "stop_events": ["stop_" + name], "priority": 100,
                                 "use_wait_queue": uwq, "game_mode": False}}
     _W["mrig"] = Rig({"modes": sorted(MODES)}, modes=modes).start()
 
@@ -774,13 +798,13 @@ def gen_mode(rng, tier, i):
     mode = rng.choice(["m1", "m1", "m2"])
     hid = [0]
 
-    def handlers(ev, n, allow_post):
+    def handlers(ev, n):
         out = []
         for _ in range(n):
             hid[0] += 1
-            prio = rng.choice([1, 50, 100, 101, 150]) if ev == 1 else rng.choice([1, 2, 5])
+            prio = rng.choice([1, 50, 100, 101, 150]) if ev != 2 else rng.choice([1, 2, 5])
             if rng.random() < 0.25:
-                body = ["a", rng.random() < 0.6]
+                body = ["a", rng.random() < 0.6, rng.random() < 0.2]
             else:
                 acts = []
                 r = rng.random()
@@ -791,13 +815,27 @@ def gen_mode(rng, tier, i):
                 body = ["s", acts]            # (no release-k-th here: the mode's own wait is released by stopping it)
             out.append([ev, hid[0], prio, body])
         return out
-    regs = handlers(1, rng.choice([0, 1, 1, 2, 3]), False) + handlers(2, rng.choice([0, 1, 1, 2]), False)
+    regs = handlers(1, rng.choice([0, 1, 1, 2, 3])) + handlers(2, rng.choice([0, 1, 1, 2]))
+    more = rng.random() < 0.6                 # further start requests for the same mode while it is starting / active
+    if more:
+        regs += handlers(3, rng.choice([0, 0, 1, 2])) + handlers(4, rng.choice([0, 0, 1]))
     rng.shuffle(regs)
     env = [[["PQ", 1, False]]]
-    for _ in range(rng.randint(0, 6)):
-        env.append([["CN", rng.randrange(4)]])
+    if more and rng.random() < 0.3:
+        env[0].append(["PQ", 3, False])       # two start requests in the same loop slice
+    later = [t for t in (3, 4) if more and ["PQ", t, False] not in env[0]]
+    for _ in range(rng.randint(0, 7)):
+        r = rng.random()
+        if later and r < 0.3:
+            env.append([["PQ", later.pop(0), False]])
+        elif r < 0.45:
+            env.append([["ST"]])              # stop request
+        else:
+            env.append([["XN" if rng.random() < 0.15 else "CN", rng.randrange(4)]])
     if rng.random() < 0.75:
         env += [[["CN", rng.randrange(2)]] for _ in range(8)]
+        if rng.random() < 0.5:
+            env += [[["ST"]]] + [[["CN", rng.randrange(2)]] for _ in range(3)]
     return {"mode": mode, "regs": regs, "env": env}
 
 
@@ -805,12 +843,15 @@ def run_mode(case):
     global CUR
     _init_mode()
     if _W.get("boot_error"):
-        return dict(_boot_failed(), resolved=[], mode_active=False, mode_starting=False, mode_holds=False)
+        return dict(_boot_failed(), resolved=[], mode_active=False, mode_starting=False, mode_holds=False,
+                    mode_hold_q=[], mode_reqs=[])
     rig = _W["mrig"]
     em = rig.machine.events
     mode = rig.machine.modes[case["mode"]]
     run = Run(em, rig.loop, "c02m", mode=case["mode"])
-    run.evname = {1: "go_" + case["mode"], 2: "mode_%s_starting" % case["mode"]}
+    run.evname = {2: "mode_%s_starting" % case["mode"]}
+    for t in TRIGGERS:
+        run.evname[t] = "go%d_%s" % (t, case["mode"])
     before = list(em._queue_tasks)
     CUR = run
     reboot = False
@@ -820,7 +861,7 @@ def run_mode(case):
         run.aborted = True
         out = run.observe([])
         out.update(qposts=run.qposts, shared=False, resolved=[], mode_active=False, mode_starting=False,
-                   mode_holds=False, loop_exception="%s: %s" % (type(e).__name__, str(e)[:300]))
+                   mode_holds=False, mode_hold_q=[], mode_reqs=run.mode_reqs, loop_exception="%s: %s" % (type(e).__name__, str(e)[:300]))
         _drop_rig("mrig")
         return out
     finally:
@@ -832,30 +873,34 @@ def _run_mode_inner(case, rig, em, mode, run, before):
     try:
         for ev, hid, prio, body in case["regs"]:
             run.register(ev, hid, prio, body, mode_handler=(ev == 2))
-        run.posts = {}
         resolved = []
         for batch in case["env"]:
             if run.aborted:
                 break
-            act = batch[0]
-            if act[0] == "CN":
-                n = len(run.outst)
-                if not n:
-                    resolved.append([])
-                    rig.advance(0.125)
-                    continue
-                k = act[1] % n
-                if run.outst[k][0] == "m" and not mode.active:
-                    # the mode's wait can only be released by stopping an ACTIVE mode: environment picks another one
-                    others = [j for j in range(n) if run.outst[j][0] != "m"]
-                    if not others:
-                        resolved.append([])
-                        rig.advance(0.125)
+            acts = []
+            for act in batch:
+                if act[0] == "CN":
+                    n = len(run.outst)
+                    if not n:
                         continue
-                    k = others[act[1] % len(others)]
-                act = ["CN", k]
-            resolved.append([act])
-            run.execute([act], None)
+                    k = act[1] % n
+                    if run.outst[k][0] == "m" and not mode.active:
+                        # the mode's wait can only be released by stopping an ACTIVE mode: environment picks another one
+                        others = [j for j in range(n) if run.outst[j][0] != "m"]
+                        if not others:
+                            continue
+                        k = others[act[1] % len(others)]
+                    act = ["CN", k]
+                elif act[0] == "ST":
+                    held = [j for j, it in enumerate(run.outst) if it[0] == "m"]
+                    if mode.active and held:
+                        act = ["CN", held[0]]        # stopping the mode releases the wait it holds
+                    else:
+                        em.post("stop_" + case["mode"])    # nothing held (or not active): no effect on queue events
+                        continue
+                acts.append(act)
+                run.execute([act], None)
+            resolved.append(acts)
             rig.advance(0.125)
         tasks = [t for t in em._queue_tasks if t not in before]
         out = run.observe(tasks)
@@ -866,12 +911,14 @@ def _run_mode_inner(case, rig, em, mode, run, before):
         out["mode_active"] = bool(mode.active)
         out["mode_starting"] = bool(mode._starting)
         out["mode_holds"] = any(it[0] == "m" for it in run.outst)
+        out["mode_hold_q"] = [run.qnum[id(it[1])] for it in run.outst if it[0] == "m"]
+        out["mode_reqs"] = run.mode_reqs
         run.cleanup(tasks)
         rig.advance(0.125)
         if mode.active:
             mode.stop()
             rig.advance(0.125)
-        if mode.active or mode._starting or mode.stopping:
+        if mode.active or mode._starting or mode.stopping or mode._mode_start_wait_queue is not None:
             reboot = True
         if rig.exception():
             out["loop_exception"] = str(rig.exception())[:300]
@@ -882,10 +929,16 @@ def _run_mode_inner(case, rig, em, mode, run, before):
             _drop_rig("mrig")
 
 
-def mode_regs(case):
+def mode_regs(case, out):
+    """Mode.start is registered (at boot, before the case's handlers) on every start event.  Whether a given start
+    request starts the mode or is ignored (mode already starting / active) is the implementation's decision, checked
+    by the oracle and handed to the model as that handler's script (model of the FIXED Mode.start, or nothing)."""
     uwq = MODES[case["mode"]]
-    script = "(HSync (mode_start_script %s false 2))" % blit(uwq)     # model of the FIXED Mode.start
-    regs = ["(1, mkH %s 100 [] None None %s)" % (zlit(MODE_HID), script)]   # registered at boot, before the case's handlers
+    started = set(r["hid"] for r in out.get("mode_reqs", []) if r["started"])
+    regs = []
+    for t in TRIGGERS:
+        script = "(mode_start_script %s false 2)" % blit(uwq) if mode_hid(t) in started else "[]"
+        regs.append("(%s, mkH %s 100 [] None None (HSync %s))" % (zlit(t), zlit(mode_hid(t)), script))
     for r in case["regs"]:
         regs.append(c_handler(r))
     return coqlist(regs)
@@ -895,32 +948,59 @@ def coq_mode(case, out):
     if out.get("loop_exception") or out.get("boot_error") or not log_ok(out):
         return None
     env = coqlist(coqlist(c_action(a) for a in b) for b in out["resolved"])
-    return "((%s, %s), %s)" % (mode_regs(case), env, c_outcome(out))
+    return "((%s, %s), %s)" % (mode_regs(case, out), env, c_outcome(out))
 
 
 def oracle_mode(case, out):
-    regs = {1: [(MODE_HID, 100)], 2: []}
+    regs = {2: []}
+    for t in TRIGGERS:
+        regs[t] = [(mode_hid(t), 100)]
     for ev, hid, prio, body in case["regs"]:
         regs[ev].append((hid, prio))
     fails = oracle_log(out, regs, False, check_live=False)
     if out.get("loop_exception") or out.get("boot_error") or out["err"]:
         return fails
-    cbs = [o[1] for o in out["log"] if o[0] == "CB"]
-    started = any(o[0] == "I" and o[2] == MODE_HID for o in out["log"])
-    only_mode_left = all(k == "w" for k, q in out["outst"]) and len(out["outst"]) == (1 if out["mode_holds"] else 0)
-    if started and only_mode_left:
+    uwq = MODES[case["mode"]]
+    log = out["log"]
+    cbs = [o[1] for o in log if o[0] == "CB"]
+    reqs = out.get("mode_reqs", [])
+    for r in reqs:
+        if r["busy"] and r["started"]:
+            fails.append({"sig": "mode-started-twice", "what": "start request (post %s) started mode %s although it was "
+                                                               "starting/active" % (r["psn"], case["mode"])})
+        if not r["busy"] and not r["started"]:
+            fails.append({"sig": "start-request-dropped", "what": "start request (post %s) for the idle mode %s was ignored"
+                                                                  % (r["psn"], case["mode"])})
+        if not r["started"] and r["waited"]:
+            fails.append({"sig": "ignored-start-holds-event",
+                          "what": "start request (post %s) was ignored (mode %s starting/active) but locked its queue event"
+                                  % (r["psn"], case["mode"])})
+        if r["started"] and r["waited"] != uwq:
+            fails.append({"sig": "mode-wait-queue", "what": "mode %s (use_wait_queue=%s) started by post %s: waited=%s"
+                                                            % (case["mode"], uwq, r["psn"], r["waited"])})
+    hold_q = out.get("mode_hold_q", [])
+    if len(hold_q) > 1:
+        fails.append({"sig": "ignored-start-holds-event", "what": "mode %s holds %d queue events" % (case["mode"], len(hold_q))})
+    other = [x for x in out["outst"] if not (x[0] == "w" and x[1] in hold_q)]
+    if reqs and not other:
         # every wait except the one the mode itself holds is released and the loop is idle
-        if out["mode_holds"] and not out["mode_active"]:
+        if hold_q and not out["mode_active"]:
             sig = "mode-stuck-starting" if out["mode_starting"] else "mode-not-active"
             fails.append({"sig": sig, "what": "mode %s holds the start queue but is not active (starting=%s): it can never "
                                               "be stopped, the triggering queue event never completes"
                                               % (case["mode"], out["mode_starting"])})
-        if not out["mode_holds"] and (cbs.count(0) != 1 or out["pending"] != 0):
-            fails.append({"sig": "mode-start-event-incomplete",
-                          "what": "no wait outstanding but the triggering queue event completed %d times, %d dispatchers pending"
-                                  % (cbs.count(0), out["pending"])})
-    if started and only_mode_left and not out["mode_holds"] and not out["mode_active"] and MODES[case["mode"]] is False:
-        fails.append({"sig": "mode-not-active", "what": "mode %s did not become active" % case["mode"]})
+        else:
+            holders = set(r["psn"] for r in reqs if r["q"] in hold_q)
+            for psn in out["qposts"]:
+                want = 0 if psn in holders else 1
+                if cbs.count(psn) != want:
+                    fails.append({"sig": "mode-start-event-incomplete" if cbs.count(psn) < want else "callback-twice",
+                                  "what": "nothing but the active mode's own wait is outstanding: queue event (post %s) "
+                                          "completed %d times, expected %d" % (psn, cbs.count(psn), want)})
+                    break
+            if out["pending"] != len(holders):
+                fails.append({"sig": "mode-start-event-incomplete",
+                              "what": "%d dispatchers pending, %d events held by the mode" % (out["pending"], len(holders))})
     return fails
 
 
@@ -936,12 +1016,14 @@ def shrink_mode(case):
 
 
 def nontrivial_mode(case, out):
-    return MODES[case["mode"]] or any(r[0] == 2 for r in case["regs"])
+    return MODES[case["mode"]] or any(r[0] == 2 for r in case["regs"]) or len(out.get("mode_reqs", [])) > 1
 
 
 def describe_mode(case):
-    return "%s starting_handlers=%d trigger_handlers=%d" % (case["mode"], sum(1 for r in case["regs"] if r[0] == 2),
-                                                           sum(1 for r in case["regs"] if r[0] == 1))
+    nreq = sum(1 for b in case["env"] for a in b if a[0] == "PQ")
+    return "%s starting_handlers=%d start_requests=%d stops=%s" % (
+        case["mode"], sum(1 for r in case["regs"] if r[0] == 2), nreq,
+        min(2, sum(1 for b in case["env"] for a in b if a[0] == "ST")))
 
 
 # ------------------------------------------------------------------------------------------------
